@@ -111,6 +111,7 @@ func main() {
 	}
 
 	var atomFiles, fileListFiles []string
+	rootSwitch, profileSwitch := root, profile
 	if len(recipeFile) > 0 {
 		cursor, err := fs.NewTextInputFileCursor(recipeFile)
 		if err != nil {
@@ -156,6 +157,13 @@ func main() {
 		}
 		if err := cursor.Err(); err != nil {
 			fatal("%s", err.Error())
+		}
+		// the -root and -profile switches override the recipe
+		if len(rootSwitch) > 0 {
+			root = rootSwitch
+		}
+		if len(profileSwitch) > 0 {
+			profile = profileSwitch
 		}
 	}
 
